@@ -422,7 +422,7 @@ func csidhDomain(rng *rand.Rand) *domain {
 
 func pqDomain(rng *rand.Rand) *domain {
 	const KSK, KPK, MSK, MPK, DSK, DPK = 0, 1, 2, 3, 4, 5
-	var ksk, kpk, msk, mpk, dsk, dpk [][]byte
+	var ksk, kpk, msk, mpk, dsk, dpk, dsig [][]byte
 	for i := 0; i < 3; i++ {
 		pk, sk := kyber768.NewKeyFromSeed(vlib.Bytes(rng, kyber768.KeySeedSize))
 		a, b := make([]byte, kyber768.PrivateKeySize), make([]byte, kyber768.PublicKeySize)
@@ -438,6 +438,27 @@ func pqDomain(rng *rand.Rand) *domain {
 		rng.Read(seed[:])
 		pk3, sk3 := mldsa65.NewKeyFromSeed(&seed)
 		dsk, dpk = append(dsk, sk3.Bytes()), append(dpk, pk3.Bytes())
+		sg := make([]byte, mldsa65.SignatureSize)
+		_ = mldsa65.SignTo(sk3, []byte("probe"), nil, false, sg)
+		dsig = append(dsig, sg)
+	}
+	// The token of an ML-DSA key is its encoding followed by a probe of what the key does (the cached matrix and hash are not part of the
+	// encoding): a public key verifies the probe signature of the key it encodes, a private key signs the probe message.
+	pkToken := func(o interface{}) []byte {
+		pk := o.(*mldsa65.PublicKey)
+		b := pk.Bytes()
+		for i := range dpk {
+			if bytes.Equal(dpk[i], b) {
+				return append(b, b2(mldsa65.Verify(pk, []byte("probe"), nil, dsig[i]))...)
+			}
+		}
+		return b
+	}
+	skToken := func(o interface{}) []byte {
+		sk := o.(*mldsa65.PrivateKey)
+		sg := make([]byte, mldsa65.SignatureSize)
+		_ = mldsa65.SignTo(sk, []byte("probe"), nil, false, sg)
+		return append(sk.Bytes(), sg[:32]...)
 	}
 	pick := func(set *[][]byte) func(rng *rand.Rand, _ [][]interface{}) []byte {
 		return func(rng *rand.Rand, _ [][]interface{}) []byte { return (*set)[rng.Intn(len(*set))] }
@@ -452,9 +473,9 @@ func pqDomain(rng *rand.Rand) *domain {
 			func(*rand.Rand) interface{} { sk := new(mlkem768.PrivateKey); sk.Unpack(msk[0]); return sk }},
 		{"mlkem768.pk", 2, func(o interface{}) []byte { b := make([]byte, mlkem768.PublicKeySize); o.(*mlkem768.PublicKey).Pack(b); return b },
 			func(*rand.Rand) interface{} { pk := new(mlkem768.PublicKey); _ = pk.Unpack(mpk[0]); return pk }},
-		{"mldsa65.sk", 2, func(o interface{}) []byte { return o.(*mldsa65.PrivateKey).Bytes() },
+		{"mldsa65.sk", 2, skToken,
 			func(*rand.Rand) interface{} { sk := new(mldsa65.PrivateKey); _ = sk.UnmarshalBinary(dsk[0]); return sk }},
-		{"mldsa65.pk", 2, func(o interface{}) []byte { return o.(*mldsa65.PublicKey).Bytes() },
+		{"mldsa65.pk", 2, pkToken,
 			func(*rand.Rand) interface{} { pk := new(mldsa65.PublicKey); _ = pk.UnmarshalBinary(dpk[0]); return pk }},
 	}
 	seed32 := func(rng *rand.Rand, _ [][]interface{}) []byte { return []byte{byte(rng.Intn(3))} }
@@ -632,6 +653,10 @@ func runDomain(d *domain, tr int, rng *rand.Rand, o *vlib.Out, calls int) {
 	for _, p := range d.ops {
 		wsum += p.weight
 	}
+	// derived: the (kind, index) of the object the previous call derived something from, when that something went into an object of
+	// another kind (sk.Public and the like).  Half of the time the next call then decodes another value into that very object, in place,
+	// so that storage shared between the two shows as a change of the derived object.
+	derived := [2]int{-1, -1}
 	for n := 0; n < calls; n++ {
 		r := rng.Intn(wsum)
 		var p *op
@@ -642,10 +667,23 @@ func runDomain(d *domain, tr int, rng *rand.Rand, o *vlib.Out, calls int) {
 			}
 			r -= d.ops[i].weight
 		}
+		forced := -1
+		if derived[0] >= 0 && rng.Intn(2) == 0 {
+			for i := range d.ops {
+				if d.ops[i].fresh != nil && d.ops[i].recv == derived[0] {
+					p, forced = &d.ops[i], derived[1]
+					break
+				}
+			}
+		}
+		derived = [2]int{-1, -1}
 		e := event{Ev: "call", Tr: tr, Dom: d.name, Op: p.name, Args: []int{}}
 		c := &call{rng: rng}
 		if p.recv >= 0 {
 			i := rng.Intn(len(pool[p.recv]))
+			if forced >= 0 {
+				i = forced
+			}
 			c.recv = &pool[p.recv][i]
 			e.Recv = base[p.recv] + i + 1
 			if p.recvIsArg {
@@ -660,6 +698,9 @@ func runDomain(d *domain, tr int, rng *rand.Rand, o *vlib.Out, calls int) {
 			}
 			c.args = append(c.args, pool[k][i])
 			e.Args = append(e.Args, base[k]+i+1)
+			if p.recv >= 0 && p.recv != k && len(p.args) == 1 {
+				derived = [2]int{k, i}
+			}
 		}
 		if p.x != nil {
 			c.x = p.x(rng, pool)
@@ -667,7 +708,7 @@ func runDomain(d *domain, tr int, rng *rand.Rand, o *vlib.Out, calls int) {
 		}
 		if p.fresh != nil {
 			k := fmt.Sprintf("%s/%d", p.name, e.X)
-			if !seen[k] || rng.Intn(4) == 0 {
+			if forced < 0 && (!seen[k] || rng.Intn(4) == 0) {
 				*c.recv = p.fresh()
 			}
 			seen[k] = true
